@@ -42,12 +42,13 @@ def switch_id(sw):
     return "%s:%s" % (sw[0], sw[1]) if sw[0] != "param" else "param:%s=%s" % (sw[1], sw[2])
 
 
-def parse_key(k):
+def parse_key(k, n=None):
+    n = len(M.EPOCH_START) if n is None else n
     if k.startswith("L"):
         return [int(x) for x in k[1:].split(",")]
     if k.startswith("M"):
         m, r = [int(x) for x in k[1:].split(",")]
-        return np.arange(len(M.EPOCH_START)) % m == r
+        return np.arange(n) % m == r
     if ":" in k:
         p = [int(x) if x else None for x in k.split(":")]
         return slice(*p)
@@ -104,20 +105,43 @@ def changed_cells(st, g, sw):
 
 def slice_deletes(st, sw, names):
     """which one-time names does slicing (the static= path of Epochs.__init__) remove from the copied instance
-    dict: every name is planted alone and all together on a parent, the parent is sliced, the child inspected;
-    a name counts as deleted only if it is gone both times"""
-    otps = M.otp_table(st.cls)
+    dict: the results are computed the ordinary way on a parent (all of them, and each one alone), the parent is
+    sliced, the child inspected; a name counts as deleted only if it is gone both times"""
     k = parse_key(sw[1])
-    sent = object()
     gone = {}
-    for group in [[n] for n in otps] + [list(otps)]:
+    for group in [list(names)] + [[n] for n in names]:
         obj = st.make()[0]
         for n in group:
-            obj.__dict__[n] = sent
+            getattr(obj, n)
         child = obj[k]
         for n in group:
             gone[n] = gone.get(n, True) and (n not in child.__dict__)
     return {n: gone.get(n, False) for n in names}
+
+
+def isolated(st, sw, g):
+    """does re-targeting a COPY leave the original alone?  All results are read on an object; a copy is taken
+    (a slice for Epochs; copy.copy otherwise) and reset / re-targeted; every byte of the original's instance dict
+    (sets and dicts hashed by content) must be as before — the hypothesis of C14_copy_reset_equiv_fresh"""
+    import copy
+    otps = M.otp_table(st.cls)
+    try:
+        obj = st.make()[0]
+        for n in g.names:
+            getattr(obj, n)
+        before = {k: M.vhash(v) for k, v in obj.__dict__.items()}
+        if sw[0] == "slice":
+            c = obj[parse_key(sw[1])]
+            c.reset()
+        else:
+            c = copy.copy(obj)
+            c.reset()
+            if sw[0] in ("set_input", "assign"):
+                c = do_switch(st, c, sw)
+        after = {k: M.vhash(v) for k, v in obj.__dict__.items()}
+        return before == after
+    except Exception:  # noqa
+        return False
 
 
 # ---- reference values computed from the definition, independent of nitime (where that is cheap)
@@ -307,6 +331,212 @@ def oracle(t, h1, h2, res):
                        "differs", "equal to the new analyzer's value", base)
 
 
+# ----------------------------------------------------------------------------- scripts: objects derived from objects
+# A script is a list of operations on named objects:  ("read", obj, name) | ("slice", src, key, dst) |
+# ("iter", src, prefix) | ("copy", src, dst, "copy"|"deepcopy") | ("reset", obj) | ("switch", obj)
+# Every read is compared with a freshly built object for what the object stands for at that moment.
+def epoch_fresh(st, idx):
+    return st.make(start=np.array(M.EPOCH_START)[idx], duration=np.array(M.EPOCH_DUR)[idx])[0]
+
+
+def epoch_refs(idx):
+    dur = np.array([(i + 1) * 10 ** 11 for i in range(len(M.EPOCH_START))], dtype=np.int64)[idx]
+    start = np.array([i * 10 ** 12 for i in range(len(M.EPOCH_START))], dtype=np.int64)[idx]
+    return {"duration": dur, "total": int(np.sum(dur)), "n_long": int(np.sum(dur > 25 * 10 ** 10)),
+            "first_start": int(np.atleast_1d(start)[0])}
+
+
+def run_script(st, g, script, sw=None):
+    """returns {"reads": [...], "made": [...], "exc": ...}; objects of Epochs settings carry the indices they stand
+    for, objects of analyzer settings carry 'old' / 'new' (which input they are on)"""
+    import copy
+    is_ep = st.family == "Epochs"
+    M.Rec.reset()
+    objs, what, nreads = {}, {}, {}
+    objs["P"] = st.make()[0]
+    what["P"] = np.arange(len(M.EPOCH_START)) if is_ep else "old"
+    nreads["P"] = []
+    res = {"reads": [], "made": []}
+    cache = {}
+
+    def expected(w, name):
+        k = repr(w.tolist() if hasattr(w, "tolist") else w)
+        if k not in cache:
+            if is_ep:
+                cache[k] = (epoch_fresh(st, w), epoch_refs(w))
+            elif w == "old":
+                cache[k] = (st.make()[0], {})
+            else:
+                cache[k] = (new_object(st, sw), indep_refs(st, sw))
+        return getattr(cache[k][0], name), cache[k][1]
+
+    try:
+        for op in script:
+            if op[0] == "read":
+                _, o, name = op
+                M.Rec.fired = []
+                v = getattr(objs[o], name)
+                fired = list(M.Rec.fired)
+                want, refs = expected(what[o], name)
+                r = {"obj": o, "name": name, "fired": fired, "eq": bool(M.deep_close(v, want)),
+                     "seq": len(res["reads"]) + len(res["made"])}
+                if name in refs:
+                    r["def_ok"] = bool(M.deep_close(plain(v), refs[name], rtol=1e-7))
+                if is_ep and name == "duration":
+                    r["len_ok"] = np.shape(np.asarray(v)) == np.shape(np.asarray(objs[o].data))
+                res["reads"].append(r)
+                nreads[o].append(name)
+            elif op[0] == "slice":
+                _, src, key, dst = op
+                n = len(np.atleast_1d(what[src]))
+                k = parse_key(key, n)
+                objs[dst] = objs[src][k]
+                what[dst] = np.asarray(what[src])[k]
+                nreads[dst] = []
+                res["made"].append({"seq": len(res["reads"]) + len(res["made"]), "obj": dst, "src": src, "how": "slice:" + key, "src_reads": list(nreads[src]),
+                                    "survivors": [x for x in g.names if x in objs[dst].__dict__]})
+            elif op[0] == "iter":
+                _, src, prefix = op
+                for i, e in enumerate(objs[src]):
+                    d = "%s%d" % (prefix, i)
+                    objs[d], what[d], nreads[d] = e, np.asarray(what[src])[i], []
+                    res["made"].append({"seq": len(res["reads"]) + len(res["made"]), "obj": d, "src": src, "how": "iter", "src_reads": list(nreads[src]),
+                                        "survivors": [x for x in g.names if x in e.__dict__]})
+            elif op[0] == "copy":
+                _, src, dst, kind = op
+                objs[dst] = copy.copy(objs[src]) if kind == "copy" else copy.deepcopy(objs[src])
+                what[dst] = what[src]
+                nreads[dst] = list(nreads[src])
+            elif op[0] == "reset":
+                objs[op[1]].reset()
+                res["made"].append({"seq": len(res["reads"]) + len(res["made"]), "obj": op[1], "src": op[1], "how": "reset", "src_reads": list(nreads[op[1]]),
+                                    "survivors": [x for x in g.names if x in objs[op[1]].__dict__]})
+                nreads[op[1]] = []
+            elif op[0] == "switch":
+                o = op[1]
+                objs[o] = do_switch(st, objs[o], sw)
+                what[o] = "new"
+                res["made"].append({"seq": len(res["reads"]) + len(res["made"]), "obj": o, "src": o, "how": switch_id(sw), "src_reads": list(nreads[o]),
+                                    "survivors": [x for x in g.names if x in objs[o].__dict__]})
+                nreads[o] = []
+    except Exception as e:  # noqa
+        res["exc"] = {"op": list(op), "cls": type(e).__name__, "msg": str(e)[:160]}
+    return res
+
+
+def script_oracle(st, script, res, sw=None):
+    fam = st.family
+    base = {"entry_point": st.key, "script": [list(o) for o in script], "switch": switch_id(sw) if sw else None}
+    if "exc" in res:
+        e = res["exc"]
+        yield Fail("C14/script/%s/%s" % (fam, e["op"][0]), "operation %s of the script raised %s: %s" % (e["op"], e["cls"], e["msg"]),
+                   e, "a value, as on a freshly built object", base)
+    for r in res["reads"]:
+        if not r["eq"] or r.get("def_ok") is False or r.get("len_ok") is False:
+            yield Fail("C14/script/%s/%s" % (fam, r["name"]),
+                       "%s.%s differs from a freshly built object%s (objects derived by slicing / iterating / copying, "
+                       "see script)" % (r["obj"], r["name"],
+                                        "" if r.get("len_ok", True) else "; len(duration) != len(object)"),
+                       r, "equal to the freshly built object's value", base)
+
+
+def script_cases_coq(ti, g, res):
+    """one K case per derived object: what was read on its source before it was made, what was still stored in it
+    when it was made, what was read on it"""
+    out = []
+    made = {}
+    for m in res["made"]:
+        made[m["obj"]] = m          # the last making of an object (reset / switch re-make it)
+    for o, m in made.items():
+        # the reads that happened on it after its (last) making
+        mine = [r for r in res["reads"] if r["obj"] == o and r["seq"] > m["seq"]]
+        steps = []
+        h2 = []
+        for r in mine:
+            h2.append(r["name"])
+            steps.append("{| p_fired := %s; p_eq := %s |}" % (
+                llit([core.nlit(g.nidx(f)) for f in r["fired"] if f in g.names]), blit(r["eq"])))
+        nl = lambda l: llit([core.nlit(g.nidx(n)) for n in l if n in g.names])  # noqa
+        out.append("(T%d, T%d_prot, T%d_assigned, T%d_changed, %s, %s, %s, %s)" % (
+            ti, ti, ti, ti, nl(m["src_reads"]), nl(m["survivors"]), nl(h2), llit(steps)))
+    return out
+
+
+def epoch_scripts(ctx, st, g, deep=False):
+    names = M.public_names(g)
+    rd = lambda o, ns: [("read", o, n) for n in ns]  # noqa
+    import itertools
+    subs = [list(c) for k in range(len(names) + 1) for c in itertools.combinations(names, k)]
+    if len(subs) > 6:
+        subs = [[], names[:1], names[-1:], names] + ctx.rng.sample(subs, 2)
+    out = []
+    for S in subs:
+        for k1, k2 in [("1:3", "6:"), ("L8,2,4", "2"), ("2", "M3,1"), ("3:9:2", "1:3")]:
+            # two slices of one parent, the first one read late
+            out.append(rd("P", S) + [("slice", "P", k1, "A"), ("slice", "P", k2, "B")] + rd("B", names) + rd("A", names)
+                       + rd("P", names))
+        out.append(rd("P", S) + [("slice", "P", "6:", "A")] + rd("A", names[:1]) + [("slice", "P", "1:3", "B"),
+                   ("slice", "P", "2", "C")] + rd("C", names) + rd("B", names) + rd("A", names))
+        for k1, k2 in [("3:9:2", "1:3"), ("L8,2,4,7", "L2,0"), ("6:", "0"), ("1:", "M3,1")]:
+            # a slice of a slice, with and without reading in between
+            out.append(rd("P", S) + [("slice", "P", k1, "A")] + rd("A", S) + [("slice", "A", k2, "B")] + rd("B", names)
+                       + rd("A", names))
+            out.append(rd("P", S) + [("slice", "P", k1, "A"), ("slice", "A", k2, "B"), ("slice", "A", k2, "C")]
+                       + rd("C", names) + rd("B", names))
+        out.append(rd("P", S) + [("iter", "P", "K")] + rd("K3", names) + rd("K0", names) + rd("K9", names) + rd("P", names))
+        for kind in ("copy", "deepcopy"):
+            out.append(rd("P", S) + [("copy", "P", "Q", kind), ("slice", "Q", "1:3", "A"), ("slice", "P", "6:", "B")]
+                       + rd("A", names) + rd("B", names) + [("reset", "Q")] + rd("Q", names) + rd("P", names))
+            out.append(rd("P", S) + [("copy", "P", "Q", kind), ("reset", "P")] + rd("Q", names) + rd("P", names)
+                       + [("slice", "Q", "L8,2,4", "A")] + rd("A", names))
+    # random scripts
+    keys = ["1:3", "3:9:2", "6:", "L8,2,4", "M3,1", "2", "1:", ":4"]
+    for _ in range(ctx.scale(12, 80) * (6 if deep else 1)):
+        pool = {"P": 10}
+        sc = []
+        for j in range(ctx.rng.randint(4, 10)):
+            o = ctx.rng.choice(sorted(pool))
+            a = ctx.rng.random()
+            if a < 0.4:
+                sc.append(("read", o, ctx.rng.choice(names)))
+            elif a < 0.8 and pool[o] >= 4:
+                k = ctx.rng.choice(keys if pool[o] >= 9 else ["1:3", "1:", ":3", "L2,0", "M2,1", "1"])
+                n = len(np.atleast_1d(np.arange(pool[o])[parse_key(k, pool[o])])) if not k.isdigit() else 0
+                d = "D%d" % j
+                sc.append(("slice", o, k, d))
+                pool[d] = n
+            elif a < 0.9:
+                d = "C%d" % j
+                sc.append(("copy", o, d, ctx.rng.choice(["copy", "deepcopy"])))
+                pool[d] = pool[o]
+            else:
+                sc.append(("reset", o))
+        for o in sorted(pool):
+            sc += rd(o, names)
+        out.append(sc)
+    return out
+
+
+def copy_scripts(ctx, st, g, usable):
+    names = [n for n in M.public_names(g) if n in usable]
+    rd = lambda o, ns: [("read", o, n) for n in ns]  # noqa
+    out = []
+    subs = [[], names[-1:], names]
+    for S in subs:
+        for kind in ("copy", "deepcopy"):
+            # the copy is re-targeted, the original must stay what it was — and the other way round
+            out.append(rd("P", S) + [("copy", "P", "B", kind), ("switch", "B")] + rd("B", names) + rd("P", names))
+            out.append(rd("P", S) + [("copy", "P", "B", kind), ("switch", "P")] + rd("B", names) + rd("P", names))
+            out.append(rd("P", S) + [("copy", "P", "B", kind), ("reset", "B")] + rd("P", names) + rd("B", names))
+    return out
+
+
+COPY_SETTINGS = {"CorrelationAnalyzer": ("set_input", "len"), "NormalizationAnalyzer": ("set_input", "same"),
+                 "HilbertAnalyzer": ("assign", "len"), "UserCorrelationAnalyzer": ("set_input", "same"),
+                 "SpectralAnalyzer/default": ("set_input", "rate"), "CoherenceAnalyzer/pinned": ("set_input", "rate"),
+                 "UserUserNormalizationAnalyzer": ("set_input", "same"), "FilterAnalyzer/band": ("param", "lb", 0.3)}
+
+
 def build_tables(ctx):
     M.process_prelude()
     tabs = []
@@ -326,6 +556,7 @@ def build_tables(ctx):
                 for n, d in slice_deletes(st, sw, g.names).items():
                     gg.nodes[n]["resets"] = d
             t = {"st": st, "sw": sw, "g": gg, "assigned": assigned_cells(sw)}
+            t["isolated"] = isolated(st, sw, gg) if hasattr(st.cls, "reset") else True
             try:
                 t["changed"] = changed_cells(st, gg, sw)
             except Exception as e:  # noqa
@@ -343,8 +574,8 @@ def gen_source(tabs):
         st, g = t["st"], t["g"]
         exp_e = g.edges_coq(M.expected_edges(st, g))
         exp_s = llit([core.nlit(g.cidx(c)) for c in EXPECTED_STALE.get(st.family, [])])
-        blocks.append("Lemma tables_ok_%d : tables_ok T%d T%d_prot T%d_assigned T%d_changed %s %s = true.\n"
-                      "Proof. vm_compute. reflexivity. Qed.\n" % (i, i, i, i, i, exp_e, exp_s))
+        blocks.append("Lemma tables_ok_%d : tables_ok_iso %s (tables_ok T%d T%d_prot T%d_assigned T%d_changed %s %s) = true.\n"
+                      "Proof. vm_compute. reflexivity. Qed.\n" % (i, blit(t["isolated"]), i, i, i, i, exp_e, exp_s))
         lemmas.append("tables_ok_%d (%s %s)" % (i, st.key, switch_id(t["sw"])))
     return tables_header(tabs), blocks, lemmas
 
@@ -386,9 +617,46 @@ def run(ctx):
                      "%s/%s" % (st.family, switch_id(sw)), nontrivial=bool(h1))
             c.t, c.h1, c.h2, c.res = t, h1, h2, res
             cases.append(c)
+    # ---- objects derived from objects: several slices / iteration / slices of slices of one Epochs object with late
+    # reads, copy.copy / deepcopy of Epochs and of analyzers followed by reset / re-targeting of one of the two.
+    # When a table lemma is already broken (the reset mechanism changed shape) the random part is six times larger.
+    deep = bool(ctx.broken)
+    scases = []
+    for ti, t in enumerate(tabs):
+        st, sw, g = t["st"], t["sw"], t["g"]
+        if st.family == "Epochs":
+            if sw != st.retarget[0]:
+                continue
+            scripts = [(sc, None) for sc in epoch_scripts(ctx, st, g, deep)]
+        elif COPY_SETTINGS.get(st.key) == tuple(sw):
+            fresh_new, _ = fresh_new_values(st, g, sw)
+            scripts = [(sc, sw) for sc in copy_scripts(ctx, st, g, set(fresh_new))]
+        else:
+            continue
+        for sc, ssw in scripts:
+            res = run_script(st, g, sc, ssw)
+            coqs = script_cases_coq(ti, g, res)
+            for j, cq in enumerate(coqs or ["(T%d, T%d_prot, T%d_assigned, T%d_changed, [], [], [], [])" % (ti, ti, ti, ti)]):
+                c = Case(cq, {"setting": st.key, "switch": switch_id(ssw) if ssw else None, "script": [list(o) for o in sc],
+                              "observed": res if j == 0 else "see first case of this script"},
+                         "%s/script" % st.family, nontrivial=True)
+                c.t, c.sc, c.ssw, c.res, c.first = t, sc, ssw, res, j == 0
+                scases.append(c)
+    ctx.extra["scripts_run"] = sum(1 for c in scases if c.first)
     kbad = ctx.check_cases("K", tables_header(tabs), cases, "check", shard=400, case_type="case")
+    sbad = ctx.check_cases("KS", tables_header(tabs), scases, "check", shard=400, case_type="case")
     known = [k["key"] for k in ctx.findings.get("known", [])]
     reported = set()
+    for i, c in enumerate(scases):
+        if not c.first:
+            continue
+        for f in script_oracle(c.t["st"], c.sc, c.res, c.ssw):
+            f.replay = dict(f.replay or {}, model_disagrees=(i in sbad))
+            tag = (f.key, c.t["st"].key)
+            if tag in reported:
+                continue
+            reported.add(tag)
+            ctx.report_fail(f, c)
     for i, c in enumerate(cases):
         for f in oracle(c.t, c.h1, c.h2, c.res):
             f.replay = dict(f.replay or {}, model_disagrees=(i in kbad))
@@ -415,6 +683,19 @@ def replay(ctx, path):
     core.import_nitime()
     d = json.loads(open(path).read())
     c = d.get("case") or d
+    if "script" in c:
+        st = [x for x in M.settings() if x.key == c["setting"]][0]
+        M.process_prelude()
+        g = M.build_graph(st)
+        sw = None
+        if c.get("switch"):
+            sw = [x for x in st.retarget if switch_id(x) == c["switch"]][0]
+        sc = [tuple(o) for o in c["script"]]
+        res = run_script(st, g, sc, sw)
+        fails = list(script_oracle(st, sc, res, sw))
+        print(json.dumps({"setting": c["setting"], "script": c["script"], "observed": res,
+                          "fails": [[f.key, f.what] for f in fails]}, indent=1, default=str))
+        return 1 if fails else 0
     tabs = [t for t in build_tables(ctx) if t["st"].key == c["setting"] and switch_id(t["sw"]) == c["switch"]]
     t = tabs[0]
     fresh_new, _ = fresh_new_values(t["st"], t["g"], t["sw"])
